@@ -174,7 +174,7 @@ func (r *run) runRound(who []int, skipProposeFor int) {
 	for k := 0; k < 5; k++ { // PROPOSE_VOTE, PRECOMMIT, PRECOMMIT_VOTE, COMMIT, COMMIT_PROCESS
 		var step []int
 		for _, i := range who {
-			if p := r.s.Nodes[i].B.Phase; p >= bft.ProposeVote && p <= bft.CommitProcess {
+			if p := r.s.Nodes[i].B.Phase; p >= bft.ProposeVote && p <= bft.CommitProcess && !committed(r.s, i) {
 				step = append(step, i)
 			}
 		}
